@@ -1,136 +1,18 @@
-import Ivg.Gen.Facts
-import Ivg.Model.Decoder
-/-!
-# Tie: the facts regenerated from /repo equal what the hand-written model assumes.
-Every theorem is closed by evaluation (`decide` / `rfl`); a change of a table, constant, error string,
-struct field list or of the write frame in /repo makes the corresponding theorem fail to build.
--/
-namespace Ivg.Gen.Tie
-open Ivg Ivg.Enc Ivg.Dec
-
-def allDrawOps : List DrawOp :=
-  [.arcAbs, .v6 .C, .v1 .H, .v2 .L, .v4 .Q, .v4 .S, .v2 .T, .v1 .V, .v2 .Y, .Z,
-   .arcRel, .v6 .c, .v1 .h, .v2 .l, .v4 .q, .v4 .s, .v2 .t, .v1 .v, .v2 .y]
-
-/-- encode.go `drawOps` is the table the model's `opInfo`/`DrawOp.char` encode (sorted by verb byte). -/
-theorem drawOps_tie :
-    Facts.drawOps = allDrawOps.map fun op =>
-      (op.char, (opInfo op).opcodeBase.toNat, (opInfo op).maxRepCount, (opInfo op).nArgs) := by
-  decide
-
-theorem dc1Table_tie : Facts.dc1Table = (List.range 5).map fun i => (dc1Table i).toNat := by decide
-
-theorem magic_tie : Facts.magic = Enc.magic.map UInt8.toNat := by decide
-
-theorem defaultViewBox_tie :
-    Facts.defaultViewBox.map Num.F32.ofInt =
-      [defaultViewBox.minX, defaultViewBox.minY, defaultViewBox.maxX, defaultViewBox.maxY] := by decide
-
-theorem mids_tie : Facts.intConsts = [("ivg.MidSuggestedPalette", 1), ("ivg.MidViewBox", 0)] := by decide
-
-def allDecErrs : List (String × DecErr) := [
-  ("decode.errInconsistentMetadataChunkLength", .inconsistentMetadataChunkLength),
-  ("decode.errInvalidColor", .invalidColor),
-  ("decode.errInvalidMagicIdentifier", .invalidMagicIdentifier),
-  ("decode.errInvalidMetadataChunkLength", .invalidMetadataChunkLength),
-  ("decode.errInvalidMetadataIdentifier", .invalidMetadataIdentifier),
-  ("decode.errInvalidNumber", .invalidNumber),
-  ("decode.errInvalidNumberOfMetadataChunks", .invalidNumberOfMetadataChunks),
-  ("decode.errInvalidSuggestedPalette", .invalidSuggestedPalette),
-  ("decode.errInvalidViewBox", .invalidViewBox),
-  ("decode.errMetadataIdentifierOrder", .metadataIdentifierOrder),
-  ("decode.errUnsupportedDrawingOpcode", .unsupportedDrawingOpcode),
-  ("decode.errUnsupportedMetadataIdentifier", .unsupportedMetadataIdentifier),
-  ("decode.errUnsupportedStylingOpcode", .unsupportedStylingOpcode)]
-
-def allEncErrs : List (String × EncErr) := [
-  ("encode.errDrawingOpsUsedInStylingMode", .drawingOpsUsedInStylingMode),
-  ("encode.errInvalidIncrementingAdjustment", .invalidIncrementingAdjustment),
-  ("encode.errInvalidSelectorAdjustment", .invalidSelectorAdjustment),
-  ("encode.errStylingOpsUsedInDrawingMode", .stylingOpsUsedInDrawingMode)]
-
-/-- the error strings of decode/encode/generate are the ones the model prints -/
-theorem errorStrings_tie :
-    Facts.errorStrings =
-      allDecErrs.map (fun (n, e) => (n, (e.message.drop 8).toString)) ++
-      allEncErrs.map (fun (n, e) => (n, (e.message.drop 8).toString)) ++
-      [("generate.CSELUsedAsBothGradientAndStop", "ivg: CSEL used as both gradient and stop"),
-       ("generate.TooManyGradientStops", "ivg: too many gradient stops")] := by
-  decide
-
-def fieldsOf (k : String) : Option (List String) := (Facts.structFields.find? (·.1 = k)).map (·.2)
-
-/-- C17: the state an Encoder / Renderer / Gradient / vec.Rasterizer carries is exactly the state the model
-    resets; a new field makes this fail. -/
-theorem encoder_fields_tie : fieldsOf "encode.Encoder" = some
-    ["HighResolutionCoordinates", "highResolutionCoordinates", "buf", "altBuf", "metadata", "err",
-     "lod0", "lod1", "cSel", "nSel", "mode", "drawOp", "drawArgs", "scratch"] := by decide
-
-theorem renderer_fields_tie : fieldsOf "render.Renderer" = some
-    ["z", "r", "scaleX", "biasX", "scaleY", "biasY", "viewBox", "palette", "lod0", "lod1", "cSel", "nSel",
-     "disabled", "prevSmoothType", "prevSmoothPointX", "prevSmoothPointY", "fill", "flatColor", "flatImage",
-     "gradient", "cReg", "nReg", "stops"] := by decide
-
-theorem gradient_fields_tie : fieldsOf "render.Gradient" = some
-    ["Shape", "Spread", "Pix2Grad", "Ranges", "First", "Last"] := by decide
-
-theorem vecRasterizer_fields_tie : fieldsOf "raster/vec.Rasterizer" = some
-    ["embedded:vector.Rasterizer", "Dst", "DrawOp"] := by decide
-
-theorem color_fields_tie : fieldsOf "ivg.Color" = some ["typ", "data"] := by decide
-
-/-! ## C18 write frame -/
-
-/-- no package-level variable is assigned (or appended into) outside its declaration -/
-theorem no_global_writes : Facts.globalWrites = [] := by decide
-
-/-- no goroutines, no unsafe/sync/reflect/cgo/runtime -/
-theorem no_go_statements : Facts.goStatements = [] := by decide
-theorem no_risky_imports : Facts.riskyImports = [] := by decide
-
-/-- the only non-receiver parameters written through; each was reviewed: every call site passes
-    memory owned by the callee's caller frame (`m := ivg.DefaultMetadata` copy, `coords [6]float32`,
-    `args [7]float32`, `minMID`, the converter's `adjs` map, `g.Ranges[:0]`), never an exported input. -/
-theorem param_writes_frame : Facts.paramWrites =
-    ["decode.WithColorAt:m", "decode.WithPalette:m", "decode.decode:m", "decode.decodeCoordinates:coords",
-     "decode.decodeMetadataChunk:m", "decode.decodeMetadataChunk:minMID", "generate.normalize:args",
-     "generate.scan:args", "mdicons.ParsePath:adjs", "mdicons.normalize:args",
-     "render.AppendRanges:a(append)"] := by decide
-
-/-- the package-level variables that exist (all are read-only tables, defaults and error values;
-    none is written, see `no_global_writes`) -/
-theorem package_vars_frame : Facts.packageVars =
-    ["decode.errInconsistentMetadataChunkLength",
-     "decode.errInvalidColor",
-     "decode.errInvalidMagicIdentifier",
-     "decode.errInvalidMetadataChunkLength",
-     "decode.errInvalidMetadataIdentifier",
-     "decode.errInvalidNumber",
-     "decode.errInvalidNumberOfMetadataChunks",
-     "decode.errInvalidSuggestedPalette",
-     "decode.errInvalidViewBox",
-     "decode.errMetadataIdentifierOrder",
-     "decode.errUnsupportedDrawingOpcode",
-     "decode.errUnsupportedMetadataIdentifier",
-     "decode.errUnsupportedStylingOpcode",
-     "decode.midDescriptions",
-     "encode.drawOps",
-     "encode.errDrawingOpsUsedInStylingMode",
-     "encode.errInvalidIncrementingAdjustment",
-     "encode.errInvalidSelectorAdjustment",
-     "encode.errStylingOpsUsedInDrawingMode",
-     "encode.negativeInfinity",
-     "encode.positiveInfinity",
-     "ivg.DefaultMetadata",
-     "ivg.DefaultPalette",
-     "ivg.DefaultViewBox",
-     "ivg.MagicBytes",
-     "ivg.dc1Table",
-     "mdicons.ErrSkip",
-     "mdicons.acronyms",
-     "mdicons.skippedFiles",
-     "mdicons.skippedPaths",
-     "render.negativeInfinity",
-     "render.positiveInfinity"] := by decide
-
-end Ivg.Gen.Tie
+import Ivg.Gen.Tie.DrawOps
+import Ivg.Gen.Tie.Dc1
+import Ivg.Gen.Tie.Magic
+import Ivg.Gen.Tie.DefaultViewBox
+import Ivg.Gen.Tie.Mids
+import Ivg.Gen.Tie.DecodeErrors
+import Ivg.Gen.Tie.EncodeErrors
+import Ivg.Gen.Tie.GenerateErrors
+import Ivg.Gen.Tie.Fields
+import Ivg.Gen.Tie.EncoderFields
+import Ivg.Gen.Tie.RendererFields
+import Ivg.Gen.Tie.GradientFields
+import Ivg.Gen.Tie.VecRasterizerFields
+import Ivg.Gen.Tie.ColorFields
+import Ivg.Gen.Tie.Globals
+import Ivg.Gen.Tie.GoStmts
+import Ivg.Gen.Tie.ParamWrites
+/-! Aggregate of all tie modules (convenience only; property files import the modules they need). -/
